@@ -42,7 +42,7 @@ func (p *expressionPostFixerImpl) ConvertToPostfix(infixTokens []*token) ([]*Ope
 	var opStack = []*token{{TokenType: openBracket}}
 	var tokens = append(infixTokens, &token{TokenType: closeBracket})
 
-	for _, currentToken := range tokens {
+	for index, currentToken := range tokens {
 		log.Debugf("postfix processing currentToken %v", currentToken.toString(true))
 		switch currentToken.TokenType {
 		case openBracket, openCollect, openCollectObject:
@@ -108,6 +108,10 @@ func (p *expressionPostFixerImpl) ConvertToPostfix(infixTokens []*token) ([]*Ope
 			}
 			// now we should have ( as the last element on the opStack, get rid of it
 			opStack = opStack[0 : len(opStack)-1]
+			if len(opStack) == 0 && index != len(tokens)-1 {
+				// only the final, implicit `)` may close the implicit outer bracket
+				return nil, errors.New("bad expression, got close brackets without matching opening bracket")
+			}
 
 		default:
 			var currentPrecedence = currentToken.Operation.OperationType.Precedence
